@@ -298,4 +298,7 @@ func runC25(c *eng.Ctx) {
 	c.Expect("RETRY-reader", 4)
 	_ = P
 	_ = fmt.Sprint
+
+	errAll(c, "ERR-write-paths", "weed/server", "an error of a callee on the HTTP write path reaches the caller", "(*FilerServer).doPostAutoChunk", "(*FilerServer).doPutAutoChunk", "(*FilerServer).dataToChunk")
+	c.Expect("ERR-write-paths", 5)
 }
